@@ -59,6 +59,10 @@ PAIR_RULES = {
     "macro": "pattern:\n- '@x'\n- '@y'\n",
     "binfound": "pattern:\n- pop\n- pop\n- ret\n",
     "dup": "pattern:\n- push\n- mov\n",
+    # the input does not have the kind the flag announces: -s with the object file, -b with the listing text
+    "wrongkind": "pattern:\n- call\n",
+    # neither a listing nor an object file (-s: no instruction lines at all; -b: objdump refuses it)
+    "notalisting": "pattern:\n- call\n",
     "range": "config:\n  valid_addr_range:\n    min: '0x0'\n    max: '0x100'\npattern:\n- call:\n  - valid_addr\n",
 }
 MACROS = {"m1": "macros:\n- name: '@x'\n  pattern: push\n- name: '@y'\n  pattern: call\n",
@@ -94,6 +98,11 @@ def run(prop, tier):
     for k, t in (("dup", DUP_LISTING), ("range", RANGE_LISTING)):
         with open(inputs[k][0], "w") as f:
             f.write(t)
+    inputs["wrongkind"] = (obj, text)
+    junk = os.path.join(d, "notes.txt")
+    with open(junk, "w") as f:
+        f.write("push %rbx\ncall g\nnot a listing, not an object file\n")
+    inputs["notalisting"] = (junk, junk)
 
     def text_of(inv):
         return inputs.get(inv["pair"], (text, obj))[0]
